@@ -6,6 +6,8 @@ def run(call):
     from openfisca_core import periods
     try:
         mode = call["mode"]
+        if mode == "strings":
+            return run_strings(call)
         if mode == "round-trip":
             unit = call["unit"]
             if unit == "eternity":
@@ -32,3 +34,130 @@ def run(call):
     except BaseException as ex:
         return {"kind": "raise", "exc": type(ex).__name__, "mro": [c.__name__ for c in type(ex).__mro__],
                 "msg": str(ex)[:300], "tb": traceback.format_exc()[-1500:]}
+
+
+# ---------------------------------------------------------------------------------------------------------------
+# bounded stand-in: every string of a stated finite set is either refused or a legitimate spelling
+# ---------------------------------------------------------------------------------------------------------------
+import datetime as _dt
+import re as _re
+
+_ORDER = {"weekday": 0, "day": 0, "week": 1, "month": 2, "year": 3}
+
+
+def _date_precision(text):
+    """('year'|'month'|'day'|'week'|'weekday', exists) for the five ISO shapes, None for anything else"""
+    m = _re.fullmatch(r"(\d{4})(?:-(\d{2})(?:-(\d{2}))?)?", text)
+    if m:
+        y = int(m.group(1))
+        if m.group(3):
+            try:
+                _dt.date(y, int(m.group(2)), int(m.group(3)))
+                return "day", y >= 1
+            except ValueError:
+                return "day", False
+        if m.group(2):
+            return "month", 1 <= int(m.group(2)) <= 12 and y >= 1
+        return "year", y >= 1
+    m = _re.fullmatch(r"(\d{4})-W(\d{2})(?:-(\d))?", text)
+    if m:
+        y, w = int(m.group(1)), int(m.group(2))
+        wd = int(m.group(3)) if m.group(3) else 1
+        try:
+            _dt.date.fromisocalendar(y, w, wd)
+            ok = True
+        except ValueError:
+            ok = False
+        return ("weekday" if m.group(3) else "week"), ok
+    return None
+
+
+def must_refuse(s):
+    """the refusal list of the statement; None where the statement says nothing either way"""
+    if s.lower() == "eternity":
+        return False
+    parts = s.split(":")
+    if len(parts) > 3:
+        return True
+    if len(parts) == 1:
+        dp = _date_precision(s)
+        return True if dp is None or not dp[1] else False
+    unit = parts[0]
+    if unit not in _ORDER:
+        return True
+    dp = _date_precision(parts[1])
+    if dp is None or not dp[1]:
+        return True
+    if _ORDER[unit] < _ORDER[dp[0]]:
+        return True                                  # a unit finer than the precision of the date
+    if len(parts) == 3 and not _re.fullmatch(r"\s*[+-]?\d+(_\d+)*\s*", parts[2]):
+        return True                                  # not an integer literal
+    return None if len(parts) == 3 and int(parts[2].replace("_", "")) < 1 else False
+
+
+def strings(tier, seed):
+    import random
+    from openfisca_core import periods
+    rnd = random.Random(seed)
+    base = set()
+    starts = [(2014, 1, 1), (2014, 2, 1), (2016, 2, 29), (2014, 12, 29), (2015, 1, 5), (2021, 1, 1), (2020, 12, 28), (1000, 1, 1), (9998, 12, 27)]
+    for y, m, d in starts:
+        for unit in ("year", "month", "day", "week", "weekday"):
+            for size in (1, 2, 3, 12, 24):
+                try:
+                    base.add(str(periods.Period((periods.DateUnit(unit), periods.Instant((y, m, d)), size))))
+                except Exception:
+                    pass
+    base |= {"ETERNITY", "eternity", "week:2014-02", "month:2014", "day:2014-W05", "year:2014-03:2", "month:2014-02:3:1", "weekday:2014-W05-3:2"}
+    base = sorted(base)
+    if tier == "quick":
+        base = base[::3]
+    alpha = "0123456789-:Wdwy "
+    out = set(base)
+    for s in base:
+        for i in range(len(s) + 1):
+            for c in alpha:
+                out.add(s[:i] + c + s[i:])
+            if i < len(s):
+                out.add(s[:i] + s[i + 1:])
+                for c in alpha:
+                    out.add(s[:i] + c + s[i + 1:])
+    # short strings over the core alphabet
+    core = "0129-:W"
+    for L in range(0, 5 if tier == "quick" else 6):
+        if L <= 4:
+            import itertools
+            for t in itertools.product(core, repeat=L):
+                out.add("".join(t))
+        else:
+            for _ in range(20000):
+                out.add("".join(rnd.choice(core) for _ in range(L)))
+    return sorted(out)
+
+
+def run_strings(call):
+    from openfisca_core import periods
+    n = 0
+    try:
+        for s in strings(call.get("tier", "quick"), call.get("seed", 0)):
+            n += 1
+            try:
+                p = periods.period(s)
+            except ValueError:
+                continue
+            want = must_refuse(s)
+            if want:
+                return {"kind": "return", "value": {"ok": False, "text": s, "problem": "should be refused, was accepted as " + repr(p)}}
+            if p.unit != "eternity" and (p.start.year < 1000 or p.start.date.isocalendar()[0] < 1000 or p.start.date.isocalendar()[0] > 9999):
+                continue                             # years below 1000 print without padding: outside the statement's range
+            if p.unit != "eternity" and p.size < 1:
+                continue                             # sizes below one: the statement speaks of positive sizes only
+            # an accepted text denotes a period whose canonical text is stable
+            t1 = str(p)
+            p2 = periods.period(t1)
+            if str(p2) != t1:
+                return {"kind": "return", "value": {"ok": False, "text": s, "problem": f"accepted as {p!r} which prints {t1!r}, parsed back as {p2!r} printing {str(p2)!r}"}}
+        return {"kind": "return", "value": {"ok": True, "strings": n}}
+    except BaseException as ex:
+        return {"kind": "raise", "exc": type(ex).__name__, "mro": [c.__name__ for c in type(ex).__mro__],
+                "msg": (str(ex)[:300] + " on " + repr(s)), "tb": traceback.format_exc()[-1500:]}
